@@ -9,7 +9,6 @@ import (
 	"fmt"
 	"reflect"
 	"runtime"
-	"sort"
 	"strings"
 
 	"github.com/formancehq/numscript"
@@ -42,7 +41,6 @@ func (o Outcome) Recheck() (string, bool) {
 	var again Outcome
 	again.Err, again.ErrType = o.Err, o.ErrType
 	fillResult(&again, o.raw)
-	sort.Strings(again.TxMeta)
 	return again.Canon(), again.Canon() == o.Canon()
 }
 
@@ -187,7 +185,6 @@ func Run(ctx context.Context, pr numscript.ParseResult, vars map[string]string, 
 	fillResult(&o, &res)
 	o.raw = &res
 	fillErr(&o, err)
-	sort.Strings(o.TxMeta)
 	return o
 }
 
